@@ -500,7 +500,7 @@ impl Prop for C15 {
         ]
     }
     fn cases(tier: Tier) -> u64 {
-        tier.pick(60_000, 1_000_000)
+        tier.pick(60_000, 600_000)
     }
     fn strategy(_tier: Tier) -> BoxedStrategy<Case> {
         let merge = any::<bool>()
